@@ -291,11 +291,25 @@ pub fn run_generated(
 
 /// Runs the whole pipeline on a text.
 pub fn run_pipeline(text: &str, opts: &RunOpts) -> Outcome {
+    run_pipeline_with_tree(text, opts, &mut None)
+}
+
+/// Like `run_pipeline`; if `tree` is `Some`, the Debug rendering of the parse tree is stored there.
+pub fn run_pipeline_with_tree(text: &str, opts: &RunOpts, tree: &mut Option<String>) -> Outcome {
     let program = match try_parse(text) {
-        Err(end) => return Outcome::new(end),
-        Ok(Err(e)) => return Outcome::new(parse_err_end(&e)),
+        Err(end) => {
+            *tree = None;
+            return Outcome::new(end);
+        }
+        Ok(Err(e)) => {
+            *tree = None;
+            return Outcome::new(parse_err_end(&e));
+        }
         Ok(Ok(p)) => p,
     };
+    if tree.is_some() {
+        *tree = Some(format!("{:?}", program));
+    }
     if opts.stage == Stage::Parse {
         return Outcome::new(End::Normal);
     }
